@@ -178,3 +178,23 @@ func sortFuncs(fs []*ssa.Function) {
 		}
 	}
 }
+
+func init() {
+	debugHooks["transparent"] = func(p *Program) {
+		for h, s := range transparentSite {
+			println(FuncName(h), "<-", FuncName(s.Parent()))
+		}
+	}
+}
+
+func init() {
+	debugHooks["r3r7"] = func(p *Program) {
+		hh := p.Fn("eio", "Server.handleHandshake")
+		isErr := callPred(`eio\.writeServerError`)
+		for _, e := range findInstrs(hh, isErr) {
+			r0, _ := PrunedCanReach(hh, nil, nil, func(in ssa.Instruction) bool { return in == e }, nil)
+			r1, tr := PrunedCanReach(hh, nil, []Assume{{`\(r\.Method != "GET"\)`, false}, {`\(r\.Method == "GET"\)`, true}}, func(in ssa.Instruction) bool { return in == e }, nil)
+			println(p.Pos(e.Pos()), FuncName(e.Parent()), "reach(no assume)=", r0, "reach(GET)=", r1, trailString(p, tr))
+		}
+	}
+}
